@@ -848,9 +848,20 @@ func eventMatches(e *Event, pat string) bool {
 	if pat == "" {
 		return false
 	}
-	name := strings.ReplaceAll(e.Callee, modulePrefix+"/", "")
+	return nameMatches(strings.ReplaceAll(e.Callee, modulePrefix+"/", ""), pat)
+}
+
+// nameMatches is the pattern language of temporal clauses: "=x" exact, otherwise suffix match, where a method's
+// receiver may be written without its package qualifier; a "go:" pattern only matches goroutine starts.
+func nameMatches(name, pat string) bool {
 	if strings.HasPrefix(pat, "=") {
 		return name == pat[1:]
+	}
+	if strings.HasPrefix(pat, "go:") {
+		if !strings.HasPrefix(name, "go:") {
+			return false
+		}
+		return nameMatches(name[3:], pat[3:])
 	}
 	if strings.HasSuffix(name, pat) {
 		return true
@@ -894,6 +905,7 @@ func (ex *Exec) onEvent(st *State, ev *Event) {
 		if tc.Kind == "respond" || !eventMatches(ev, tc.A) {
 			continue
 		}
+		ex.noteHit(tc)
 		names := ex.paramNames(fr0.Fn, fr0.Args, nil, false)
 		ex.eventNames(names, "a", ev)
 		var errs []string
@@ -1015,6 +1027,7 @@ func (ex *Exec) checkRespondFrom(st *State, fr *Frame, ct *Contract, names map[s
 			if ai < from || !eventMatches(a, tc.A) {
 				continue
 			}
+			ex.noteHit(tc)
 			na := map[string]Value{}
 			for k, v := range names {
 				na[k] = v
@@ -1224,4 +1237,13 @@ func allocEscapes(a *ssa.Alloc) bool {
 func onlyNoEvent(errs []string) bool {
 	// a missing event makes the sub-expression fail; errors reported afterwards are consequences of it
 	return len(errs) > 0 && strings.HasPrefix(errs[0], "no-event:")
+}
+
+// noteHit counts how often the triggering pattern of a temporal clause matched an event (vacuity report: a precede or
+// respond clause that never triggers in the function it is written on decides nothing there).
+func (ex *Exec) noteHit(tc *Temporal) {
+	if ex.TemporalHits == nil {
+		ex.TemporalHits = map[*Temporal]int{}
+	}
+	ex.TemporalHits[tc]++
 }
